@@ -64,6 +64,14 @@ Proof.
   intros H. pose proof (sumR_le lo len (fun _ => 0) g H) as L. rewrite sumR_const in L. lra.
 Qed.
 
+(** rows (or columns) add up: per-row bounds give the bound for the whole bunch-major array *)
+Lemma rows_add_up lo len (g h b : Z -> R) :
+  (forall i, (lo <= i < lo + Z.of_nat len)%Z -> Rabs (g i - h i) <= b i) ->
+  Rabs (sumR lo len g - sumR lo len h) <= sumR lo len b.
+Proof.
+  intros H. rewrite sumR_sub. eapply Rle_trans; [apply sumR_abs|]. apply sumR_le. exact H.
+Qed.
+
 (** a sum over the in-range stencil points as a sum over all of them *)
 Lemma Rsum_filter_zrange (P : Z -> bool) (g : Z -> R) it :
   Rsum (map g (filter P (zrange it))) = sumR 0 (Z.to_nat it) (fun j => if P j then g j else 0).
